@@ -1,5 +1,6 @@
 import TonicModel.Lemmas.FramingWire
 import TonicModel.Lemmas.FramingDecLimit
+import TonicModel.Lemmas.FramingReserve
 /-
 C06 — Message size limits are enforced exactly and without collateral loss.
 -/
@@ -155,6 +156,19 @@ theorem C06_no_reservation_over_limit (cd : Codec α) (cfg : DecCfg) (s : DecSt)
   refine ⟨fun len comp h => ⟨h1 len comp h, chunkReserve_le cfg s len (h1 len comp h)⟩, fun m h => ?_, h3⟩
   obtain ⟨len, hl⟩ := h2 m h
   exact ⟨len, hl, chunkReserve_le cfg s len hl⟩
+
+/-- **The reservation is part of the transition, not a side definition.**  `Dec.decodeChunkT` is
+`decode_chunk` written once with its `buf.reserve(len)` at the place the code has it (after the flag
+was judged and the length passed the limit test, before the body is read).  The transition function
+every other theorem speaks about is its first projection, the reservation `C06_no_reservation_over_limit`
+bounds is its second: in every state, one `decode_chunk` call reserves at most the limit, and what it
+reserves is the length it then tries to read. -/
+theorem C06_reserve_in_the_transition (cd : Codec α) (cfg : DecCfg) (s : DecSt) :
+    (Dec.decodeChunkT cd cfg s).1 = Dec.decodeChunk cd cfg s ∧
+    (Dec.decodeChunkT cd cfg s).2 = Dec.chunkReserve cfg s ∧
+    (∀ r, (Dec.decodeChunkT cd cfg s).2 = some r → r ≤ cfg.limit) :=
+  ⟨decodeChunkT_fst cd cfg s, decodeChunkT_snd cd cfg s,
+   fun r h => chunkReserve_le cfg s r (by rw [← decodeChunkT_snd cd cfg s]; exact h)⟩
 
 /-- **Incoming limit, exactly, end to end.**  With the body as in
 `C06_oversize_refused_any_chunking` but `len` arbitrary: the stream's answer to that frame — its
